@@ -1,0 +1,7 @@
+//go:build !verif
+// +build !verif
+
+package capacity
+
+// verifGate is a no-op unless the package is built with the tag "verif".
+func verifGate(point string, sid string, wouldMining bool) {}
